@@ -35,6 +35,27 @@ int imports_obj_verify(const uint8_t *buffer, int file_size)
     if (buffer[i] != e_ident[i]) { return -1; }
   }
 
+  // Only 32 bit little endian ELF files can be parsed here.
+  if (file_size < (int)sizeof(ElfHeader32)) { return -1; }
+
+  const ElfHeader32 *elf_header = (const ElfHeader32 *)buffer;
+
+  if (elf_header->e_ident_class != 1 || elf_header->e_ident_data != 1)
+  {
+    return -1;
+  }
+
+  // The section headers have to be inside the file.
+  const uint32_t e_shoff = get_int32_le(elf_header->e_shoff);
+  const uint32_t e_shnum = get_int16_le(elf_header->e_shnum);
+  const uint32_t e_shentsize = get_int16_le(elf_header->e_shentsize);
+
+  if (e_shentsize < sizeof(ElfSection32)) { return -1; }
+  if ((uint64_t)e_shoff + (e_shnum * e_shentsize) > (uint64_t)file_size)
+  {
+    return -1;
+  }
+
   return 0;
 }
 
